@@ -65,13 +65,23 @@ POSITIONS = {
     'del': (lambda e: 'a {{- ' + e + '}} b\n', lambda x: x.find('.//' + NS + 'del')),
     'em': (lambda e: 'a {{em ' + e + '}} b\n', lambda x: x.find('.//' + NS + 'inline')),
     'attachment-heading': (lambda e: 'x\nSCHEDULE ' + e + '\n  y\n', lambda x: x.find('.//' + NS + 'attachment/' + NS + 'heading')),
+    # escaped text NEXT TO unescaped text of the same node: what stands before it (a dash that is no separator here, a word) is kept as it is,
+    # and nothing of the escaped part is eaten with it
+    'attachment-heading-after-dash': (lambda e: 'x\nSCHEDULE - ' + e + '\n  y\n', lambda x: x.find('.//' + NS + 'attachment/' + NS + 'heading'), lambda s: '- ' + s),
+    'attachment-heading-after-word': (lambda e: 'x\nANNEXURE Forms ' + e + ' end\n  y\n', lambda x: x.find('.//' + NS + 'attachment/' + NS + 'heading'), lambda s: 'Forms ' + s + ' end'),
+    'heading-between-words': (lambda e: 'SEC 1 - see ' + e + ' end\n  x\n', lambda x: x.find('.//' + NS + 'section/' + NS + 'heading'), lambda s: 'see ' + s + ' end'),
+    'heading-after-dash': (lambda e: 'SEC 1 - - ' + e + '\n  x\n', lambda x: x.find('.//' + NS + 'section/' + NS + 'heading'), lambda s: '- ' + s),
+    'crossheading-after-dash': (lambda e: 'CROSSHEADING - ' + e + '\n', lambda x: x.find('.//' + NS + 'crossHeading'), lambda s: '- ' + s),
+    'subheading-after-dash': (lambda e: 'SEC 1\n  SUBHEADING - ' + e + '\n  x\n', lambda x: x.find('.//' + NS + 'section/' + NS + 'subheading'), lambda s: '- ' + s),
+    'paragraph-between-words': (lambda e: 'start ' + e + ' end\n', lambda x: x.find('.//' + NS + 'p'), lambda s: 'start ' + s + ' end'),
     'speech-from': (None, None),
 }
 del POSITIONS['speech-from']
 
 def _oracle(args):
     pos, s, root = args
-    mk, find = POSITIONS[pos]
+    mk, find = POSITIONS[pos][:2]
+    want = POSITIONS[pos][2](s) if len(POSITIONS[pos]) > 2 else s
     text = mk(esc(s))
     try:
         xml = impl.parser().parse_to_xml(text, root)
@@ -83,8 +93,8 @@ def _oracle(args):
     got = ''.join(el.itertext())
     if len(el) != 0:
         return ('bad', 'escaped text became markup: <%s> inside' % xmlsx.local(el[0].tag), text)
-    if got != s:
-        return ('bad', 'text is %r, expected %r' % (got, s), text)
+    if got != want:
+        return ('bad', 'text is %r, expected %r' % (got, want), text)
     return ('ok', None, text)
 
 # ---- partial escapes around the num / heading separator ----
